@@ -201,6 +201,9 @@ pub fn par_shards<F>(n: usize, threads: usize, f: F) -> Report
 where
     F: Fn(usize, &mut Report) + Sync,
 {
+    // RQMC_PART=k/N: this process only runs the shards i with i % N == k (process-level parallelism,
+    // used where many allocating threads in one process contend in the allocator)
+    let (part_k, part_n) = std::env::var("RQMC_PART").ok().and_then(|s| { let mut it = s.split('/'); Some((it.next()?.parse::<usize>().ok()?, it.next()?.parse::<usize>().ok()?)) }).unwrap_or((0, 1));
     let next = AtomicUsize::new(0);
     let results: Mutex<Vec<Option<Report>>> = Mutex::new((0..n).map(|_| None).collect());
     std::thread::scope(|s| {
@@ -211,7 +214,9 @@ where
                     break;
                 }
                 let mut r = Report::default();
-                f(i, &mut r);
+                if i % part_n == part_k {
+                    f(i, &mut r);
+                }
                 results.lock().unwrap()[i] = Some(r);
             });
         }
